@@ -5,9 +5,15 @@ Property theorems only (helper lemmas: QbVerif/Lemmas/LogFormat*.lean).  All sta
 `Variant.repaired`, the model of lib/log_format.c / lib/log.c as they are in /repo now (repairs
 D7 D7b D8 D8b D9 D9c D9d committed there); each repair has a refutation witness below showing that
 the same statement is false for the code as found (`Variant.original` / the 256-byte buffer).
+
+Second half: "follows the format spec".  The specification (`render`, `renderStatic`, `specLine`,
+`csSpec`: Lemmas/LogFormatSpec.lean) mentions no buffer and no index; `format_eq_spec`,
+`static_eq_spec`, `cs_format_eq` say that the bytes the code leaves in the buffer are that specification.
 -/
 import QbVerif.Model.LogFormat
 import QbVerif.Lemmas.LogFormat
+import QbVerif.Lemmas.LogFormatSpecLoop
+import QbVerif.Lemmas.LogFormatSpecFinish
 
 namespace QbVerif.Props.C13
 open QbVerif.LogFormat QbVerif.Gen
@@ -189,5 +195,265 @@ theorem caller_buf_len_ge_two (v : Variant) (fmt : Bytes) (fl : Fields) (sf : SF
 /-- non-vacuity: calls do happen and are logged (`%n|%b` with limit 8: rooms 8 and 5) -/
 example : (targetFormat .repaired [37, 110, 124, 37, 98] ⟨[102, 110], [], 1, 6, [104, 105], [], [], none⟩ 8 false
     (Mem.fresh 8 170)).1.cuts = [5, 8] := by decide
+
+
+/-! ## follows the format spec -/
+
+/-- **the scan behind `render`**: every format string (well-formed or not) is cut into literal bytes
+    (never `%`) and stretches `%`, optional `-`, digits, one byte that is not a digit; written back
+    the stretches give the format, and only the last one can lack its letter. -/
+theorem scan_faithful (fmt : Bytes) :
+    detok (tokenize .lit fmt) = fmt ∧ (∀ it ∈ tokenize .lit fmt, it.Wf) ∧ NoneLast (tokenize .lit fmt) :=
+  ⟨by simpa [modePrefix] using detok_tokenize fmt .lit, tokenize_wf fmt .lit trivial, tokenize_noneLast fmt .lit⟩
+
+example : tokenize .lit [97, 37, 45, 49, 48, 110, 37] = [.lit 97, .dir true [49, 48] (some 110), .dir false [] none] := by
+  decide
+
+/-- what the loop of qb_log_target_format appends for a format: `(render fmt fl).take (M - 1)`
+    except in the class `straddles` (see `cut_eq_take`) -/
+def cutRendering (fmt : Bytes) (fl : Fields) (M : Nat) : Bytes := gCut (fmtArg fl) (tokenize .lit fmt) (M - 1)
+
+/-- the class in which the line is not a prefix of the rendering: a right-aligned (`%-N…`, an
+    undocumented flag) field with a non-empty value shorter than its width `N` starts before column
+    `M - 1` and ends behind it.  Decidable from format, fields and limit alone. -/
+def straddles (fmt : Bytes) (fl : Fields) (M : Nat) : Bool := gStraddle (fmtArg fl) (tokenize .lit fmt) (M - 1)
+
+def cutStatic (fmt : Bytes) (sf : SFields) (M : Nat) : Bytes := gCut (staticArg sf) (tokenize .lit fmt) (M - 1)
+def straddlesStatic (fmt : Bytes) (sf : SFields) (M : Nat) : Bool :=
+  gStraddle (staticArg sf) (tokenize .lit fmt) (M - 1)
+
+/-- outside the class the loop output is the rendering cut to `M - 1` bytes; in every case it has
+    `min (M - 1) (length of the rendering)` bytes (so "the room was filled" = "the rendering has at
+    least `M - 1` bytes") -/
+theorem cut_eq_take (fmt : Bytes) (fl : Fields) (M : Nat) :
+    (cutRendering fmt fl M).length = min (M - 1) (render fmt fl).length ∧
+    (straddles fmt fl M = false → cutRendering fmt fl M = (render fmt fl).take (M - 1)) := by
+  unfold cutRendering straddles render
+  rw [← gRender_fmt]
+  exact ⟨gCut_length _ _ _ (tokenize_noneLast _ _), gCut_eq_take _ _ _ (tokenize_noneLast _ _)⟩
+
+/-- **qb_log_target_format, every case** — for every format string (well-formed or not), all fields,
+    ellipsis on/off, every `max_line_length ≥ 4` and every initial content of an output buffer of at
+    least `max_line_length` bytes: the buffer then starts with `finishCut M ell (cutRendering …)`
+    followed by a NUL. -/
+theorem format_eq_cut (fmt : Bytes) (fl : Fields) (M : Nat) (ell : Bool) (data : Array Nat)
+    (hM : 4 ≤ M) (hcap : M ≤ data.size) :
+    HoldsLine (targetFormat .repaired fmt fl M ell ⟨data, [], [], []⟩).1
+      (finishCut M ell (cutRendering fmt fl M)) := by
+  obtain ⟨e1, e2, e3, e4⟩ := gLoop_cut (fmtArg fl) M (by omega) (tokenize .lit fmt) 0 ⟨data, [], [], []⟩
+    (by omega) hcap
+  have hle := gCut_length_le (fmtArg fl) (tokenize .lit fmt) (M - 1)
+  simp only [Nat.zero_add, Nat.sub_zero, List.take_zero, List.nil_append] at e1 e4
+  unfold targetFormat cutRendering
+  simp only [fmtLoop_eq_gLoop]
+  generalize gLoop .repaired (fmtArg fl) M (tokenize .lit fmt) 0 ⟨data, [], [], []⟩ = L at e1 e2 e3 e4 ⊢
+  simp only [e3, Bool.false_eq_true, if_false]
+  have h := finishLine_holds M ell L.1 L.2.1 hM (by omega) (by rw [e2]; exact hcap)
+  rw [e1] at h ⊢
+  rw [e4] at h
+  exact h
+
+/-- **`format_eq_spec`: qb_log_target_format produces the specified line** — for every format
+    string, all fields (function, file, line, priority, both timestamps, message, tags), ellipsis
+    on/off, every `max_line_length = M ≥ 4` and every output buffer of at least `M` bytes, outside
+    the class `straddles`: the buffer holds, NUL-terminated, `specLine M ell (render fmt fl)` — the
+    rendering of the directive table cut to `M - 1` bytes; with the ellipsis option and a rendering
+    of `M - 1` bytes OR MORE its bytes `M-4 … M-2` are `...`; otherwise one newline that ends the
+    cut text is dropped.
+    Boundary behaviour contained in this statement (witnesses below): (a) a rendering of EXACTLY
+    `M - 1` bytes, which is not cut, still gets the `...` (`exact_fit_marked`, a deviation from the
+    property text: proposed finding KF-C13-ellipsis-exact-fit); (b) with the ellipsis a newline in
+    column `M - 1` is not stripped but overwritten; (c) the newline test looks at the last byte of the CUT
+    text.  Inside `straddles` the exact line is given by `format_eq_cut` (`ralign_straddle_refit`). -/
+theorem format_eq_spec (fmt : Bytes) (fl : Fields) (M : Nat) (ell : Bool) (data : Array Nat)
+    (hM : 4 ≤ M) (hcap : M ≤ data.size) (hS : straddles fmt fl M = false) :
+    HoldsLine (targetFormat .repaired fmt fl M ell ⟨data, [], [], []⟩).1 (specLine M ell (render fmt fl)) := by
+  have h := format_eq_cut fmt fl M ell data hM hcap
+  rw [(cut_eq_take fmt fl M).2 hS, finishCut_take M ell _ hM] at h
+  exact h
+
+/-- the same as seen through the C string functions (fields and format contain no NUL) -/
+theorem format_text_eq_spec (fmt : Bytes) (fl : Fields) (M : Nat) (ell : Bool) (data : Array Nat)
+    (hM : 4 ≤ M) (hcap : M ≤ data.size) (hS : straddles fmt fl M = false)
+    (hz : ∀ b ∈ specLine M ell (render fmt fl), b ≠ 0) :
+    (targetFormat .repaired fmt fl M ell ⟨data, [], [], []⟩).1.text = some (specLine M ell (render fmt fl)) :=
+  (format_eq_spec fmt fl M ell data hM hcap hS).text hz
+
+/-- non-vacuity of `format_eq_spec`: "%n|%-4l|%b" outside the class, and the line it gives -/
+example : straddles [37, 110, 124, 37, 45, 52, 108, 124, 37, 98] ⟨[102, 110], [], 7, 6, [104, 105], [], [], none⟩ 32 = false ∧
+    specLine 32 true (render [37, 110, 124, 37, 45, 52, 108, 124, 37, 98] ⟨[102, 110], [], 7, 6, [104, 105], [], [], none⟩)
+      = [102, 110, 124, 32, 32, 32, 55, 124, 104, 105] := by decide
+
+/-- the width between `%` and the letter is the decimal number written there (below 2^31; `atoi`
+    beyond that wraps: `test_width_wraps`) -/
+theorem width_is_decimal (digits : List Nat) (h : specWidth digits < 2 ^ 31) :
+    cutoffOf digits = specWidth digits := by
+  unfold cutoffOf
+  cases digits with
+  | nil => rfl
+  | cons d ds =>
+    have h' : List.foldl (fun a d => a * 10 + (d - 48)) 0 (d :: ds) < 2 ^ 31 := h
+    simp only [List.isEmpty_cons, Bool.false_eq_true, if_false, atoiSZ, specWidth]
+    rw [Nat.min_eq_left (by omega), Nat.mod_eq_of_lt (by omega), if_pos h']
+
+example : specWidth [49, 50] = 12 ∧ cutoffOf [49, 50] = 12 := by decide
+/-- "%4294967296n" is treated as no width at all, "%2147483648n" as a huge one -/
+theorem test_width_wraps : cutoffOf [52, 50, 57, 52, 57, 54, 55, 50, 57, 54] = 0 ∧
+    cutoffOf [50, 49, 52, 55, 52, 56, 51, 54, 52, 56] = 2 ^ 64 - 2 ^ 31 := by decide
+
+/-- (a) corpus/C13/kf-ellipsis-exact-fit.ops: format "abcdefg", limit 8, ellipsis on.  The rendering
+    has exactly 7 bytes and fits; the code shows "abcd...", the property text read literally
+    (`strictLine`: mark only what was cut) prescribes "abcdefg". -/
+theorem exact_fit_marked :
+    (targetFormat .repaired [97, 98, 99, 100, 101, 102, 103] ⟨[], [], 1, 6, [], [], [], none⟩ 8 true
+      (Mem.fresh 8 170)).1.text = some [97, 98, 99, 100, 46, 46, 46] ∧
+    strictLine 8 true (render [97, 98, 99, 100, 101, 102, 103] ⟨[], [], 1, 6, [], [], [], none⟩)
+      = [97, 98, 99, 100, 101, 102, 103] := by decide
+
+/-- `specLine` and the literal reading differ in exactly that case -/
+theorem specLine_eq_strict (M : Nat) (ell : Bool) (r : Bytes) (h : ¬ (ell = true ∧ r.length = M - 1)) :
+    specLine M ell r = strictLine M ell r := by
+  unfold specLine strictLine
+  have : (ell && decide (M - 1 ≤ r.length)) = (ell && decide (M - 1 < r.length)) := by
+    cases ell with
+    | false => rfl
+    | true =>
+      simp only [Bool.true_and]
+      congr 1; apply propext; constructor
+      · intro hle; have : r.length ≠ M - 1 := fun e => h ⟨rfl, e⟩; omega
+      · intro hlt; omega
+  rw [this]
+
+/-- corpus/C13/kf-ralign-straddle.ops: "a%-10nb", function "xy", limit 8: the field is right-aligned
+    in the 6 bytes that are left ("a    xy"), the first 7 bytes of the rendering "a        xyb" are
+    "a" and six blanks.  `%-` is not documented; this is what the code defines it to be. -/
+theorem ralign_straddle_refit :
+    straddles [97, 37, 45, 49, 48, 110, 98] ⟨[120, 121], [], 1, 6, [], [], [], none⟩ 8 = true ∧
+    (targetFormat .repaired [97, 37, 45, 49, 48, 110, 98] ⟨[120, 121], [], 1, 6, [], [], [], none⟩ 8 false
+      (Mem.fresh 8 170)).1.text = some [97, 32, 32, 32, 32, 120, 121] ∧
+    finishCut 8 false (cutRendering [97, 37, 45, 49, 48, 110, 98] ⟨[120, 121], [], 1, 6, [], [], [], none⟩ 8)
+      = [97, 32, 32, 32, 32, 120, 121] ∧
+    (render [97, 37, 45, 49, 48, 110, 98] ⟨[120, 121], [], 1, 6, [], [], [], none⟩).take 7
+      = [97, 32, 32, 32, 32, 32, 32] := by decide
+
+/-- **qb_log_target_format_static, every case**: for every format, name, pid, host name, every
+    `max_line_length ≥ 2` and every output buffer of at least that size the buffer then holds
+    `cutStatic …`; outside the class `straddlesStatic` (only `%-N` with P, N, H) that is the static
+    rendering (`%P %N %H` expanded with width and alignment, every other directive copied verbatim,
+    a format ending inside a directive followed by one blank) cut to `M - 1` bytes. -/
+theorem static_eq_spec (fmt : Bytes) (sf : SFields) (M : Nat) (data : Array Nat) (hM : 2 ≤ M)
+    (hcap : M ≤ data.size) :
+    HoldsLine (formatStatic .repaired fmt sf M ⟨data, [], [], []⟩).1 (cutStatic fmt sf M) ∧
+    (cutStatic fmt sf M).length = min (M - 1) (renderStatic fmt sf).length ∧
+    (straddlesStatic fmt sf M = false → cutStatic fmt sf M = (renderStatic fmt sf).take (M - 1)) := by
+  have hnl := tokenize_noneLast fmt .lit
+  refine ⟨?_, ?_, ?_⟩
+  · obtain ⟨e1, e2, e3, e4⟩ := gLoop_cut (staticArg sf) M hM (tokenize .lit fmt) 0 ⟨data, [], [], []⟩
+      (by omega) hcap
+    have hle := gCut_length_le (staticArg sf) (tokenize .lit fmt) (M - 1)
+    simp only [Nat.zero_add, Nat.sub_zero, List.take_zero, List.nil_append] at e1 e4
+    unfold formatStatic cutStatic
+    simp only [staticLoop_eq_gLoop]
+    generalize gLoop .repaired (staticArg sf) M (tokenize .lit fmt) 0 ⟨data, [], [], []⟩ = L at e1 e2 e3 e4 ⊢
+    simp only [e3, Bool.false_eq_true, if_false]
+    have hlen : L.2.1.data.toList.length = data.size := by simpa [Mem.cap] using e2
+    have h := holds_set (m := L.2.1.write (L.1 : Int) 0) L.1 (by rw [hlen, e1]; omega) (Mem.write_toList _ _ _)
+    rw [e1] at h ⊢
+    rw [e4] at h
+    exact h
+  · unfold cutStatic renderStatic
+    rw [← gRender_static sf _ hnl]
+    exact gCut_length _ _ _ hnl
+  · unfold cutStatic straddlesStatic renderStatic
+    rw [← gRender_static sf _ hnl]
+    exact gCut_eq_take _ _ _ hnl
+
+-- non-vacuity: "[%N:%P] %5b%" for name "nm", pid 77
+set_option maxRecDepth 8000 in
+example : (formatStatic .repaired [91, 37, 78, 58, 37, 80, 93, 32, 37, 53, 98, 37] ⟨[110, 109], 77, none⟩ 64
+      (Mem.fresh 64 170)).1.text = some [91, 110, 109, 58, 55, 55, 93, 32, 37, 53, 98, 37, 32] ∧
+    straddlesStatic [91, 37, 78, 58, 37, 80, 93, 32, 37, 53, 98, 37] ⟨[110, 109], 77, none⟩ 64 = false ∧
+    renderStatic [91, 37, 78, 58, 37, 80, 93, 32, 37, 53, 98, 37] ⟨[110, 109], 77, none⟩
+      = [91, 110, 109, 58, 55, 55, 93, 32, 37, 53, 98, 37, 32] := by decide
+
+/-! ## cs_format (lib/log.c) -/
+
+/-- **cs_format stays inside `maxlen`** — for every expansion of the printf-style format (empty,
+    shorter than, exactly, longer than `maxlen`), every `maxlen ≥ 1` and buffer of at least `maxlen`
+    bytes: all writes and the one read (`str[len - 1]`, with `len` clamped to `maxlen`) have indices
+    in `[0, maxlen)`; nothing is read when the expansion is empty. -/
+theorem cs_format_in_bounds (maxlen : Nat) (e : Bytes) (data : Array Nat) (h1 : 1 ≤ maxlen)
+    (hcap : maxlen ≤ data.size) :
+    WrIn (csFormat .repaired maxlen e ⟨data, [], [], []⟩) maxlen ∧
+    RdIn (csFormat .repaired maxlen e ⟨data, [], [], []⟩) maxlen ∧
+    (csFormat .repaired maxlen e ⟨data, [], [], []⟩).oob = false := by
+  obtain ⟨hw, hr, hc⟩ := csFormat_bounds maxlen e ⟨data, [], [], []⟩ h1 rfl rfl
+  refine ⟨hw, hr, oob_false_of (hw.mono ?_) (fun j hj => ⟨(hr j hj).1, ?_⟩)⟩
+  · rw [hc]; exact Int.ofNat_le.2 hcap
+  · have := (hr j hj).2
+    have : (maxlen : Int) ≤ (csFormat .repaired maxlen e ⟨data, [], [], []⟩).cap := by
+      rw [hc]; exact Int.ofNat_le.2 hcap
+    omega
+
+/-- **cs_format delivers the expansion, possibly truncated**: the buffer holds `csSpec maxlen e` —
+    an expansion shorter than `maxlen` completely, minus one trailing newline; otherwise its first
+    `maxlen - 1` bytes (the `len > maxlen` clamp makes the newline test look at the terminator, so
+    a cut text keeps a newline in its last column). -/
+theorem cs_format_eq (maxlen : Nat) (e : Bytes) (data : Array Nat) (h1 : 1 ≤ maxlen) (hcap : maxlen ≤ data.size) :
+    HoldsLine (csFormat .repaired maxlen e ⟨data, [], [], []⟩) (csSpec maxlen e) :=
+  csFormat_holds maxlen e ⟨data, [], [], []⟩ h1 hcap
+
+/-- as called by qb_log_real_va_: the buffer is `char buf[QB_LOG_MAX_LEN]` or `malloc(max_line_length)`
+    (`bufCap`), `maxlen` the longest enabled line length (≥ 4 after D9c, QB_LOG_MAX_LEN when none: D7b) -/
+theorem real_va_cs_format_safe (maxM : Nat) (e : Bytes) (h1 : 1 ≤ maxM) :
+    (csFormat .repaired maxM e (Mem.fresh (bufCap maxM) 170)).oob = false ∧
+    HoldsLine (csFormat .repaired maxM e (Mem.fresh (bufCap maxM) 170)) (csSpec maxM e) := by
+  have hcap : maxM ≤ (Array.replicate (bufCap maxM) 170).size := by
+    simp only [Array.size_replicate, bufCap]; split <;> omega
+  exact ⟨(cs_format_in_bounds maxM e _ h1 hcap).2.2, cs_format_eq maxM e _ h1 hcap⟩
+
+example : csSpec 8 [104, 105, 10] = [104, 105] ∧ csSpec 4 [97, 98, 10, 99, 100] = [97, 98, 10] ∧ csSpec 4 [] = [] ∧
+    (csFormat .repaired 4 [97, 98, 10, 99, 100] (Mem.fresh 4 170)).text = some [97, 98, 10] := by decide
+
+/-! ## the code as found: refutation witnesses -/
+
+/-- D7: `cs_format_in_bounds` is false for the code as found — an empty expansion reads `str[-1]` -/
+theorem d7_original_reads_before_buffer :
+    (csFormat .original 8 [] (Mem.fresh 8 170)).oob = true ∧ (csFormat .original 8 [] (Mem.fresh 8 170)).rd = [-1] ∧
+    (csFormat .repaired 8 [] (Mem.fresh 8 170)).oob = false := by decide
+
+/-- D8: `format_in_bounds` is false for the code as found — an empty line (format "", or "%b" with an
+    empty message) tests `output_buffer[idx - 1]` with `idx = 0` -/
+theorem d8_original_reads_before_buffer :
+    (targetFormat .original [] ⟨[], [], 1, 6, [104], [], [], none⟩ 32 false (Mem.fresh 32 170)).1.oob = true ∧
+    (targetFormat .original [37, 98] ⟨[], [], 1, 6, [], [], [], none⟩ 32 false (Mem.fresh 32 170)).1.rd = [-1] ∧
+    (targetFormat .repaired [] ⟨[], [], 1, 6, [104], [], [], none⟩ 32 false (Mem.fresh 32 170)).1.oob = false := by
+  decide
+
+/-- D8b: the NUL-termination clause of `format_in_bounds` is false for the code as found — "abcdef\n",
+    limit 8, ellipsis on: the "..." overwrites the terminator that replaced the newline and
+    `output_buffer[idx]` is never written (corpus/C13/d8b-ellipsis-newline.ops) -/
+theorem d8b_original_unterminated :
+    (targetFormat .original [97, 98, 99, 100, 101, 102, 10] ⟨[], [], 1, 6, [], [], [], none⟩ 8 true
+      (Mem.fresh 8 170)).1.text = none ∧
+    (targetFormat .repaired [97, 98, 99, 100, 101, 102, 10] ⟨[], [], 1, 6, [], [], [], none⟩ 8 true
+      (Mem.fresh 8 170)).1.text = some [97, 98, 99, 100, 46, 46, 46] := by decide
+
+/-- D9d: "the scan never passes the end of the format" is false for the code as found — "abc%" and
+    "abc%-12" step over the terminating NUL, in both loops -/
+theorem d9d_original_passes_terminator :
+    (targetFormat .original [97, 98, 99, 37] ⟨[], [], 1, 6, [], [], [], none⟩ 32 false (Mem.fresh 32 170)).2 = true ∧
+    (targetFormat .original [97, 98, 99, 37, 45, 49, 50] ⟨[], [], 1, 6, [], [], [], none⟩ 32 false (Mem.fresh 32 170)).2 = true ∧
+    (formatStatic .original [120, 37, 80, 124, 37] ⟨[110, 109], 77, none⟩ 64 (Mem.fresh 64 170)).2 = true ∧
+    (targetFormat .repaired [97, 98, 99, 37] ⟨[], [], 1, 6, [], [], [], none⟩ 32 false (Mem.fresh 32 170)).2 = false := by
+  decide
+
+set_option maxRecDepth 100000 in
+/-- D9: `static_in_bounds` needs an output buffer of `max_line_length` bytes — qb_log_format_set as
+    found expanded into `char modified_format[256]` with the default limit 512: "%300N" writes 300
+    bytes and the terminator, 45 of them behind the buffer (corpus/C13/d9-format-set-overrun.ops) -/
+theorem d9_original_buffer_overrun :
+    (formatStatic .repaired [37, 51, 48, 48, 78] ⟨[110, 109], 1, none⟩ 512 (Mem.fresh 256 170)).1.oob = true := by
+  decide
 
 end QbVerif.Props.C13
